@@ -88,15 +88,20 @@ static int dg_strlist(Dg& g, char** l) {
 // instead of whatever the harness left there -- leftovers contain pointers, which differ from process to process, so a
 // library that reads an uninitialised local would otherwise make runs irreproducible instead of wrong.  Every call
 // into the library is written L(call).
+static thread_local int t_scrub_byte = 0xa5;
 __attribute__((noinline, no_sanitize("address"))) static void scrub_op_stack() {
   char pad[24 * 1024];
-  memset(pad, g_fill_byte ? g_fill_byte : 0xa5, sizeof pad);
+  memset(pad, g_fill_byte ? g_fill_byte : t_scrub_byte, sizeof pad);
   __asm__ volatile("" : : "r"(pad) : "memory");
 }
 // ... and with the errno value the plan gives the caller at that moment (plan field `errno_mode`): a fresh process has
 // errno 0, a real caller has whatever its last failed system call left there; no result may depend on it.
 static thread_local int t_errno_preset = 0;
-#define L(...) (scrub_op_stack(), errno = t_errno_preset, (__VA_ARGS__))
+// ... and likewise the sticky IEEE exception flags: clear in a fresh process, but any earlier computation of the caller
+// (0.0/0.0, an overflowing pow, strtod("1e999")) may have left them set, and nothing may depend on that.
+static thread_local int t_fpflags_preset = 0;
+static inline void preset_fp_flags() { feclearexcept(FE_ALL_EXCEPT); if (t_fpflags_preset) feraiseexcept(t_fpflags_preset); }
+#define L(...) (scrub_op_stack(), preset_fp_flags(), errno = t_errno_preset, (__VA_ARGS__))
 
 // ------------------------------------------------------------------ harness-owned crystal structs
 // Caller-built crystals live in ONE fixed slot per task: every crystal a task passes in has the same address as
@@ -557,6 +562,11 @@ void Exec::run_op(const Op& op) {
   {
     static const int kErrnos[] = {0, ERANGE, ENOMEM, EINTR, EDOM, EINVAL, ENOENT, EAGAIN, EILSEQ, ERANGE};
     t_errno_preset = hooks.errno_mode ? kErrnos[((unsigned)op.id * 2654435761u >> 7) % (sizeof kErrnos / sizeof kErrnos[0])] : 0;
+    static const int kFlags[] = {0, FE_INVALID, FE_OVERFLOW, FE_DIVBYZERO, FE_INEXACT | FE_UNDERFLOW, FE_ALL_EXCEPT, 0, FE_INVALID | FE_DIVBYZERO};
+    t_fpflags_preset = hooks.errno_mode ? kFlags[((unsigned)op.id * 2246822519u >> 9) % (sizeof kFlags / sizeof kFlags[0])] : 0;
+    // purity engine: dead stack slots hold another byte for every op, so that a value read from an uninitialised local
+    // differs between the fresh-process reference (op id 1) and the same call inside a history
+    t_scrub_byte = hooks.purity_monitors ? (0x80 | (((unsigned)op.id * 37u) & 0x7f)) : 0xa5;
   }
   ExactStr xs_nullable(op.s.data(), op.s.size(), op.snull, 0), xs_always(op.s.data(), op.s.size(), false, 1);
   const char* const S = xs_nullable.p;    // NULL when the op asks for a NULL string
